@@ -12,11 +12,33 @@ pub fn run(ctx: &Ctx) -> Outcome {
     let small: Vec<_> = patterns.iter().filter(|p| p.size() <= 3).cloned().collect();
     patterns.extend(gen::g_contexts(&small));
     let texts = spaces::texts_mb(ctx.tier.pick(3, 4));
+    // case-insensitive literals whose case fold has another UTF-8 length (ſ/s, K(kelvin)/k, ẞ/ß):
+    // any entry point that reasons about byte lengths of the pattern must still agree with the
+    // others. Small contexts around (?i:<special>), run on texts over the folded characters.
+    let ci_patterns: Vec<crate::ast::Node> = {
+        use crate::ast::{Mode, Node::*};
+        let bx = |n: crate::ast::Node| Box::new(n);
+        let mut v = vec![];
+        for sp in ["ſ", "\u{212a}", "ẞ", "ſſ", "s", "k"] {
+            let ci = || Flags("i".into(), "".into(), Some(bx(crate::ast::Node::lit(sp))));
+            v.push(Atomic(bx(ci())));
+            v.push(Concat(vec![Assert(crate::ast::A::WordB), ci()]));
+            v.push(Concat(vec![Look(bx(ci()), false, false), Any(false)]));
+            v.push(Concat(vec![crate::ast::Node::group(ci()), Repeat(bx(Backref(1)), 0, Some(1), Mode::Greedy)]));
+            v.push(Concat(vec![Look(bx(crate::ast::Node::lit("x")), false, true), ci(), ci()]));
+            v.push(Repeat(bx(Concat(vec![ci(), Look(bx(Empty), false, false)])), 1, Some(2), Mode::Greedy));
+        }
+        v
+    };
+    let ci_texts = gen::texts(&["s", "ſ", "k", "\u{212a}", "ß", "S"], 3);
+    let n_ci = ci_patterns.len();
     let cfg = SweepCfg { prop: "C09", backtrack_limit: Some(20_000), step_cap: Some(3_000_000), shadow: true };
+    let first_ci = patterns.len();
+    patterns.extend(ci_patterns);
     let acc = sweep(&cfg, &patterns, |c: &Case<'_>, acc| {
         let re = c.re;
         let mut any = false;
-        for t in &texts {
+        for t in if c.index >= first_ci { &ci_texts } else { &texts } {
             acc.evals += 1;
             let mut bad = |acc: &mut Acc, api: &str, from: usize, want: String, got: String| {
                 acc.violate(Violation::new("C09", "coherence", c.pattern, t, from, api, want, got));
@@ -86,7 +108,7 @@ pub fn run(ctx: &Ctx) -> Outcome {
     });
     let mut out = Outcome::new(acc);
     out.distinct_nontrivial = out.acc.distinct;
-    out.rule = format!("{} + \\G / \\K variants (\\GX, (?:\\G|a)X, X\\Kb, (?:X\\K)?b) of the trees of <= 3 nodes; x all {} texts over 1-4 byte characters up to length {} x every char-boundary offset. Checked: is_match <=> find.is_some <=> captures.is_some, captures.get(0) = find, captures_from_pos(t,p).get(0) = find_from_pos(t,p), captures_iter spans = find_iter spans as whole sequences (including where an Err appears), find = first find_iter item. Non-trivial: distinct patterns with >= 1 match (both routes required).", sp.describe, texts.len(), ctx.tier.pick(3, 4));
+    out.rule = format!("{} + \\G / \\K variants (\\GX, (?:\\G|a)X, X\\Kb, (?:X\\K)?b) of the trees of <= 3 nodes; x all {} texts over 1-4 byte characters up to length {} x every char-boundary offset; plus {} case-insensitive patterns around literals whose case fold has a different UTF-8 length (ſ, KELVIN SIGN, ẞ) on texts over {{s,ſ,k,K,ß,S}}. Checked: is_match <=> find.is_some <=> captures.is_some, captures.get(0) = find, captures_from_pos(t,p).get(0) = find_from_pos(t,p), captures_iter spans = find_iter spans as whole sequences (including where an Err appears), find = first find_iter item. Non-trivial: distinct patterns with >= 1 match (both routes required).", sp.describe, texts.len(), ctx.tier.pick(3, 4), n_ci);
     let (vm, wr) = (out.acc.get("matched:vm"), out.acc.get("matched:wrapped"));
     out.extra = json!({"matched_patterns": {"vm": vm, "wrapped": wr}});
     out.require(vm > 0 && wr > 0, "both routes must produce matches");
